@@ -12,6 +12,7 @@
 From Coq Require Import List String Bool.
 Import ListNotations.
 From Dagrt Require Import GenLang GenC03 Lang Builder Sched FortranTarget FortranTargetProofs.
+From Dagrt Require Import FortranPrinter FortranPrinterProofs.
 
 Definition is_state_var : var -> bool := is_state_of state_exact state_prefixes.
 Definition persistent_var : var -> bool := is_state_of interp_keep_exact interp_keep_prefixes.
@@ -112,3 +113,24 @@ Theorem C03_shapes_matter :
   ~ compiles_statement false.
 Proof. exact (conj cond_refuted (conj ubound_refuted (conj switch_refuted (conj next_refuted ne_refuted)))). Qed.
 Print Assumptions C03_shapes_matter.
+
+(* the logical operators as FortranExpressionMapper prints them (precedences read off map_logical_or /
+   map_logical_and / map_logical_not and pymbolic's table, coq/gen/GenC03.v): for every tree of
+   and / or / not over atoms (operand lists of at least two, no negation directly under a negation)
+   and every valuation of the atoms, reading the printed token string with Fortran's grammar of
+   logical expressions gives the value of the tree.  Type-checks only while the six numbers satisfy
+   prec_ok (an .or. under .and. or .not., and an .and. under .not., get parentheses). *)
+Theorem C03_logical_printing : forall v e, wf e = true ->
+  fortran_value v (bprint c03_prec_or_child c03_prec_or_own c03_prec_and_child c03_prec_and_own
+                          c03_prec_not_child c03_prec_not_own 0 e) = Some (beval v e).
+Proof.
+  exact (printer_holds c03_prec_or_child c03_prec_or_own c03_prec_and_child c03_prec_and_own
+                       c03_prec_not_child c03_prec_not_own eq_refl).
+Qed.
+Print Assumptions C03_logical_printing.
+
+(* a printer that hands the operands of .and. the precedence of .or. (so that `a and (b or c)` is
+   printed `a .and. b .or. c`) falsifies the statement: witness a = false, c = true *)
+Theorem C03_logical_precedence_matters : forall oc oo ao nc no, ~ printer_statement oc oo oo ao nc no.
+Proof. exact printer_refuted. Qed.
+Print Assumptions C03_logical_precedence_matters.
